@@ -7,7 +7,17 @@ import re
 import sys
 
 VERIF = os.path.dirname(os.path.dirname(os.path.abspath(__file__)))
-res = json.load(open(sys.argv[1] if len(sys.argv) > 1 else "/var/tmp/sv-mut/mutants_result.json"))
+import glob
+files = sys.argv[1:] or ["/var/tmp/sv-mut/mutants_result.json"]
+merged = {}
+for f in files:                      # later files override earlier ones per (check, change)
+    for pid, name, status, detail in json.load(open(f)):
+        merged[(pid, name)] = (pid, name, status, detail)
+res = list(merged.values())
+for d in sorted(glob.glob(os.path.join(VERIF, "seeded", "*", "meta.json"))):
+    m = json.load(open(d))
+    if not m.get("checked_by", [m.get("property")]):
+        res.append((m["property"], "seeded/" + os.path.basename(os.path.dirname(d)), "not decided", m.get("not_caught", "")[:160]))
 rows = []
 for pid, name, status, detail in res:
     m = re.search(r"\[(\w[\w.\/]*)\]", detail)
@@ -27,8 +37,9 @@ for r in rows:
     out.append("| %s | `%s` | %s | %s | %s |" % r)
 n = len(rows)
 caught = sum(1 for r in rows if r[2] in ("caught", "silent"))
+undecided = sum(1 for r in rows if r[2] == "not decided")
 out.append("")
-out.append("%d changes, %d reported (or, for `benign/` controls, correctly silent), %d not." % (n, caught, n - caught))
+out.append("%d changes: %d reported (or, for `benign/` controls, correctly silent), %d outside what the property's check decides (listed as `not decided`), %d missed." % (n, caught, undecided, n - caught - undecided))
 p = os.path.join(VERIF, "DESIGN.md")
 s = open(p).read()
 a = s.index("<!-- CATCH-TABLE-BEGIN -->") + len("<!-- CATCH-TABLE-BEGIN -->")
